@@ -165,7 +165,9 @@ def check_shape(arg):
     calls = m['CALLS']
     project = jedi.Project(os.environ['STANDIN_TMP'])
     violations, evaluations, nontrivial = [], 0, 0
-    old = jedi.settings.allow_unsafe_interpreter_executions
+    old = jedi.settings.allow_unsafe_interpreter_executions, jedi.settings.cache_directory
+    # one parser cache directory per process: parallel workers must not read each other's half-written pickles
+    jedi.settings.cache_directory = os.path.join(os.environ['STANDIN_TMP'], 'cache_%d' % os.getpid())
 
     def ran(kind):
         return 'safe mode: a query ran a user-defined ' + kind + (
@@ -203,6 +205,8 @@ def check_shape(arg):
                     add("names after 'obj.' do not include everything in dir(obj)", code + '.', mode,
                         'missing: %r' % sorted(expected - names))
             for code, obj in plain_paths(namespaces, 30 if tier == 'quick' else 80):
+                if type(obj).__module__ == 'types':
+                    continue   # SimpleNamespace is only a route here (stdlib types are outside the typeshed-free scope)
                 # a stored class / function is identified by its own name; for a class with a custom metaclass the
                 # statement's "class of the object" is ambiguous, so the metaclass name is accepted as well
                 want = [(obj.__name__, 'class'), (type(obj).__name__, 'class')] if isinstance(obj, type) else \
@@ -218,7 +222,7 @@ def check_shape(arg):
                     add('infer on a plain attribute / builtin container path does not report the stored object',
                         code, mode, 'expected %r, got %r' % (want, got))
     finally:
-        jedi.settings.allow_unsafe_interpreter_executions = old
+        jedi.settings.allow_unsafe_interpreter_executions, jedi.settings.cache_directory = old
     return evaluations, nontrivial, violations
 
 
@@ -226,6 +230,8 @@ def run(repo, seed, tier):
     import jedi  # noqa: F401  (imported before the fork so that every worker uses the tree under test)
     all_shapes = list(enumerate(shapes()))
     chosen = [(i, s, seed, tier) for i, s in all_shapes if tier == 'thorough' or (i + seed) % 2 == 0]
+    # warm-up in the parent (lazy imports, inspect's module tables, parser cache) so that the forked workers start hot
+    check_shape((len(all_shapes), all_shapes[0][1], seed, 'quick'))
     with mp.get_context('fork').Pool(min(16, os.cpu_count() or 4)) as pool:
         results = pool.map(check_shape, chosen, chunksize=1)
     violations = [v for r in results for v in r[2]]
